@@ -133,7 +133,7 @@ def coq_make(targets, timeout=2400, jobs=16):
         rc, out = sh([os.path.join(ROOT, 'tools', 'mkcoq.sh')], 120)
         if rc != 0:
             return False, out
-        rc, out2 = sh('ulimit -v 12000000; exec make -j%d -k COQC="timeout 900 coqc" %s' % (jobs, ' '.join(targets)), timeout, cwd=COQ)
+        rc, out2 = sh('ulimit -v 12000000; exec make -j%d -k COQC="timeout 1500 coqc" %s' % (jobs, ' '.join(targets)), timeout, cwd=COQ)
     return rc == 0, out + out2
 
 
